@@ -10,3 +10,5 @@ import Verif.Properties.C17Counterexamples
 #print axioms C17.Counterexamples.warnings_needs_objects
 #print axioms C17.Counterexamples.scalars_needs_objects
 #print axioms C17.Counterexamples.paths_needs_methods
+#print axioms C17.no_mixins_identity
+#print axioms C17.no_mixins_unchanged
